@@ -82,7 +82,8 @@ PROPS['C14'] = {'units': ['C'], 'spec_tags': [], 'bounded': ['typeddiff'],
 PROPS['C13']['units'] = ['P', 'Pc', 'C']
 PROPS['C13']['bounded'] = list(PROPS['C13']['bounded']) + ['listpair']
 PROPS['C13']['trusted'] = PROPS['C13']['trusted'] + ['N11: impl_command_list_tuple! expanded by tools/macroexp.py from the macro_rules! definition in the same file',
-    '<Vec<C> as CommandList>::command_list (map with a trait-method path, Extend) is NOT under contract: bounded stand-in listpair; its responses half (zip loop) IS proved',
+    '<Vec<C> as CommandList>::command_list (map with a trait-method path, Extend) is NOT under contract (external_body; its trait-level postcondition `non-empty raw list` is assumed): bounded stand-in listpair; its responses half (zip loop) IS proved',
+    'pairing is stated over the relational trait spec Command::resp_ok / resp_err (the i-th value is a faithful decoding of the i-th frame; a refusal means some command refuses its frame): heap values (Vec, String) have no spec-level constructor, so a functional spec is not expressible',
     "vstd's specification of vec::IntoIter::next (prophetic remaining sequence)"]
 
 TRUSTED_FILT = "oracle: spec port of MPD's SongFilter::ParseExpression / ExpectWord / ExpectQuoted (contracts/spec/filt.rs) and its Rust twin (replay/src/mpdfilter.rs), transcribed from the MPD sources from memory"
@@ -139,19 +140,19 @@ PROPS['C14'].pop('category', None); PROPS['C14'].pop('technique', None)
 PROPS['C14']['trusted'] = [TRUSTED_PARSE, TRUSTED_FRAMEGET, TRUSTED_STD,
     "oracle: the listing fold (contracts/mpd_client/song.vspec: start_step / song_step / run / songs_of), an operational transcription of the property's mechanism (entries start at file / directory / playlist; attributes collected since the last file line; duration preferred over the legacy Time; everything else is a tag filed under its protocol name)",
     "ASSUMED (N10 same-body wrappers): HashMap<Tag, Vec<String>>::entry(tag).or_default().push(v) appends v to the values filed under the tag's protocol name (std HashMap + the repository's Hash/Eq on Tag, which go by name: proved under C20); the compiler-derived SongBuilder::default() / mem::take leave every field empty / zero / None; &Arc<str> derefs to its text",
-    "ASSUMED at the decoders' entry (requires): field names are non-empty and consist of ASCII letters, '_' and '-' (what the protocol parser accepts: vx_spec::wire::key_ok); it is not carried through Frame's contracts, and Command::response impls in definitions.rs that call these decoders are not under contract",
+    "field names are non-empty and consist of ASCII letters, '_' and '-': PROVED as a type invariant of mpd_protocol's field container (push_field requires a wire key; ResponseBuilder::parse discharges it from the parser's contract; lemma_frame_keys), required by Command::response at the trait level and discharged in Client::command / raw_command_list. It rests on: Frame::get's assumed contract and the derived Clone keep the slots' keys; Vec::push does not unwind (N10 wrapper vx_slots_push)",
     'verified WITHOUT the chrono feature (every Last-Modified text is accepted; with chrono a text that is no RFC 3339 timestamp is an error)',
     'termination of the loops over the frame iterator is not checked (exec_allows_no_decreases_clause)']
 PROPS['C14']['level_text'] = ("Proved for all listings: Song::from_frame_multi, SongInQueue::from_frame_multi and from_frame_single compute exactly the fold of the listing oracle over the frame's fields (one song per file entry, server order, each with the url, duration, position/id/priority/range, format, "
     "last-modified text and the tag values per tag name in order that appeared between its file line and the next entry), every rejected line is an error, nothing panics; relative to an assumed contract for the std HashMap holding the tags. The bounded differential run typeddiff checks the same end to end, including that assumption")
-PROPS['C14']['level_note'] = 'proof modulo the listed assumed contracts (HashMap entry API, derived Default, field-name alphabet); typeddiff is a bounded cross-check, not counted as proved'
+PROPS['C14']['level_note'] = 'proof modulo the listed assumed contracts (HashMap entry API, derived Default); the field-name alphabet is proved (type invariant of the frame); the Command::response fns of the five song-listing commands are proved against the listing oracle; typeddiff is a bounded cross-check, not counted as proved'
 
 # C15 after the per-command contracts were generated (tools/gen_defs.py)
 PROPS['C15'].pop('category', None); PROPS['C15'].pop('technique', None)
 PROPS['C15']['level_text'] = ("Proved for all parameter values: all 58 predefined commands write exactly the request documented for them (command word, every argument in the documented position; strings as one escape_argument-rendered argument, numbers as decimal text, booleans 0/1, enum keywords, ranges START:END / START:, durations as seconds with three decimals rounded half-up to the millisecond, `+`/`-` in front for relative seeks), "
     "checked against an oracle table written from the protocol reference (tools/gen_defs.py; List, TagTypes and Seek hand-written with loop invariants / the format! expansion N9b); range normalisation (SongRange::new_usize / new) denotes exactly the positions of the Rust range, saturating at usize::MAX; integer / SongId / SongPosition / range / bool / Duration Argument impls append what the table says; "
-    "relative positions (+N / -N), optional arguments and keyword groups included. The bounded stand-in cmddiff runs all 125 builder paths as a cross-check and as the source of failing inputs")
-PROPS['C15']['level_note'] = 'proof for the 58 commands and the mechanisms listed under functions_under_contract (builders such as Count::group_by are exercised by the bounded cmddiff only); Display of unsigned integers is an uninterpreted function assumed to consist of ASCII digits, `{:03}` of a number below 1000 is assumed to be its three digits; Duration::as_nanos uninterpreted'
+    "relative positions (+N / -N), optional arguments and keyword groups included. All 62 public constructors / builder methods (Count::group_by, Find::sort / window, Add::before_current, Move::range, TagTypes::enable, StickerFind::where_eq, ...) are proved to yield a value whose request is the documented one for their parameters (builder table in tools/gen_defs.py; chained builders through closed accessors; the five builders with a generic Into<..> parameter only as 'the documented request for some position / id'; documented panics - Move::range with an open end, TagTypes::enable/disable of an empty list - are preconditions). The bounded stand-in cmddiff runs all 125 builder paths as a cross-check and as the source of failing inputs")
+PROPS['C15']['level_note'] = 'proof for the 58 commands and the mechanisms listed under functions_under_contract (constructors and builder methods included); Display of unsigned integers is an uninterpreted function assumed to consist of ASCII digits, `{:03}` of a number below 1000 is assumed to be its three digits; Duration::as_nanos uninterpreted'
 PROPS['C15']['trusted'] = PROPS['C15']['trusted'] + ['ASSUMED about Display of unsigned integers: a non-empty string of ASCII digits (dec_text, uninterpreted otherwise), `{:03}` of n < 1000 is exactly its three digits; Duration::as_secs / as_nanos are uninterpreted (as_nanos bounded by u64::MAX s + 999_999_999 ns)',
-    'N11: argless_command! / single_arg_command! expanded by tools/macroexp.py; the `response` member of commands with a typed reply is lifted `external_body` (a trait impl cannot be lifted half): its contract is assumed here and carried by the decoders (C16 C14)',
+    'N11: argless_command! / single_arg_command! expanded by tools/macroexp.py; the `response` member of commands with a typed reply is PROVED against the relational trait spec resp_ok / resp_err (= the postcondition of the decoder via call_ensures, or the listing oracle) except for five whose decoder is iterator-adaptor code (List, CountGrouped, StickerList, StickerFind, ReadChannelMessages: external_body, resp_ok = true)',
     'documented panics are preconditions: string parameters must be writable (no LF / NUL after rendering): trait-level `cmd_ok` / `list_ok`, required by Client::command / album_art']
